@@ -16,12 +16,15 @@ through a recorder around its public evaluate().
 from __future__ import annotations
 
 import datetime as _dt
+import json
+import re
+import statistics
 
 from opsim.core import CLOCK
 from opsim.util import call, weighted
 
 from operon_ai.surveillance.immune_system import ImmuneSystem
-from operon_ai.surveillance.thymus import BaselineProfile, SelectionResult
+from operon_ai.surveillance.thymus import BaselineProfile, SelectionResult, Thymus
 from operon_ai.surveillance.tcell import TCell, ImmuneResponse
 from operon_ai.surveillance.treg import RegulatoryTCell, SuppressionRule, ToleranceRecord
 from operon_ai.surveillance.memory import ImmuneMemory, ThreatSignature
@@ -31,14 +34,17 @@ from operon_ai.surveillance.types import (MHCPeptide, ThreatLevel as TL, Respons
 ID = "C17"
 LEVEL = "exploration"
 ENGINE = "seq"
-RUNS = {"quick": 30_000, "thorough": 1_200_000}
+RUNS = {"quick": 24_000, "thorough": 1_200_000}
 RULE = ("seeded histories over {record_observation (windows refilled, single drifts, observations computed to put the "
         "window mean on / 1e-7 / 1e-3 either side of a trained bound), canary results, train_agent, inspect, flag_agent, "
         "tcell.reset, reset_without_confirmation cycles up to anergy, mark_agent_updated, tolerated violations, "
         "tolerance-rule add/remove, memory prune/export/import/store, clock moves around the 1 h update tolerance} on a "
         "real ImmuneSystem with two agents (window 2..7, memory capacity 1..1000, stability threshold 1..100, 0-2 "
         "scripted rules), and direct TCell.inspect / RegulatoryTCell.evaluate calls on fingerprints placed on each "
-        "bound of a generated profile; non-trivial = history with an anomaly streak >= 2, a reset of a trained "
+        "bound of a generated profile; Thymus(tolerance 0.25..3, variance_threshold 0.1/0.5), training windows still "
+        "growing or saturated, with and without errors, confidences on probability / percent / log scales, histories "
+        "that run past the sliding window and recover; 'inside the baseline' is computed from the observations the "
+        "harness fed (last window_size), never from the display's own fingerprint; non-trivial = history with an anomaly streak >= 2, a reset of a trained "
         "watcher, or a second successful training; distinct = distinct (configuration, operation list)")
 COMPONENTS = {"real": ["operon_ai.surveillance.immune_system.ImmuneSystem", "MHCDisplay", "Thymus/BaselineProfile",
                        "TCell", "RegulatoryTCell", "ImmuneMemory"],
@@ -54,6 +60,11 @@ ASSUMPTIONS = [
     "action order IGNORE < MONITOR < ISOLATE < SHUTDOWN; ALERT is not generated (its place in the order is not stated)",
     "a raising rule condition is the caller's own exception and is not generated",
     "'immediately after training' = the very next call on the system is inspect() of the same agent",
+    "current behaviour = the last window_size observations and all canary results fed since registration/clear; "
+    "vocabulary and structure are compared as sets with those of the window the baseline was trained on",
+    "which threats are graded CRITICAL rather than CONFIRMED is not fixed by the statement and is not judged",
+    "the system answer is judged against the watcher's response table (NONE/IGNORE .. CRITICAL/SHUTDOWN): at most "
+    "one step lower, CRITICAL untouched; an action above the table is not judged",
 ]
 EXPECT_PROBES = ("confirmed", "critical", "suspicious", "anergic_silent", "treg_lowered", "treg_saw_critical",
                  "remembered_threat_present", "retrained", "edge_zone", "canary_failed", "flag_present_outside",
@@ -78,7 +89,7 @@ def _spec(rng, base=None):
     if base is None:
         # confidences are whatever score the caller records: probabilities, exact 0/1, percentages, log-probabilities
         return [rng.choice([0, 0, 1, 2, 3]), rng.choice([0, 0, 3, 10]), rng.choice([1.0, 0.25, 2.5, 2.5, 0.0, 0.001, 4000.0]),
-                rng.choice([0.8, 0.9, 0.5, 0.8, 0.5, 1.0, 0.0, 87.5, -0.25]), 0]
+                rng.choice([0.8, 0.9, 0.5, 0.8, 0.5, 1.0, 0.0, 87.5, -0.25]), rng.choice([0, 0, 0, 0, 1, 2])]
     s = list(base)
     how = weighted(rng, [(3, "out"), (2, "time"), (2, "conf"), (2, "err"), (2, "len"), (1.5, "tiny")])
     if how == "out":
@@ -103,11 +114,16 @@ def _gen_system(rng, tier):
     for _ in range(rng.choice([0, 0, 1, 1, 2])):
         rules.append([rng.choice(CONDS), rng.choice([0, 1, 2, 2, 2, 3])])
     cfg = {"min_obs": min_obs, "window": window, "min_train": rng.choice([1, 2, 10]),
-           "cap": rng.choice([1, 2, 1000, 1000]), "stab": rng.choice([1, 2, 3, 100]), "rules": rules}
+           "cap": rng.choice([1, 2, 1000, 1000]), "stab": rng.choice([1, 2, 3, 100]), "rules": rules,
+           "tol": rng.choice([0.25, 0.5, 0.9, 1.0, 2.0, 2.0, 3.0]), "var_thr": rng.choice([0.5, 0.5, 0.1])}
     ops = []
     base = {0: _spec(rng), 1: None}
     cur = {0: base[0], 1: None}
-    ops.append(["fill", 0, *base[0], window])
+    ops.append(["fill", 0, *base[0], rng.choice([window, window, min_obs])])    # saturated or still growing
+    if rng.random() < 0.3:           # a training window that contains some errors (rate strictly between 0 and 1)
+        e = list(base[0])
+        e[4] = rng.choice([1, 2]) if not base[0][4] else 0
+        ops.append(["obs", 0, *e])
     if rng.random() < 0.35:
         for _ in range(rng.randint(1, 3)):
             ops.append(["canary", 0, rng.random() < 0.8])
@@ -117,7 +133,7 @@ def _gen_system(rng, tier):
     nseg = rng.randint(2, 6 if tier == "quick" else 10)
     table = [(4, "out_streak"), (2.5, "back"), (2.5, "retrain"), (2.5, "edge"), (1.5, "canary"), (1.5, "flag"),
              (2, "alarm"), (1, "reset"), (2.5, "treg"), (2, "mem"), (1, "clock"), (1.2, "other"), (1, "drift"),
-             (2.5, "tolerated_repeat"), (1.2, "mutate")]
+             (2.5, "tolerated_repeat"), (1.2, "mutate"), (2.5, "recover")]
     for _ in range(nseg):
         seg = weighted(rng, table)
         g = 0 if (base[1] is None or rng.random() < 0.8) else 1
@@ -148,6 +164,19 @@ def _gen_system(rng, tier):
                 ops.append(["inspect", g])
                 if rng.random() < 0.15:
                     ops.append(["clock", rng.choice([10.0, 3601.0])])
+        elif seg == "recover":
+            # go bad, be looked at (with or without new canary results), run well past the window, be looked at again
+            s = _spec(rng, base[g])
+            ops.append(["fill", g, *s, rng.choice([1, 2, window, window + 1])])
+            if rng.random() < 0.5:
+                ops.append(["canary", g, rng.random() < 0.7])
+            ops.append(["inspect", g])
+            if rng.random() < 0.4:
+                ops += [["obs", g, *s], ["inspect", g]]
+            cur[g] = base[g]
+            ops.append(["fill", g, *base[g], window + rng.choice([0, 0, 1, 3])])
+            for _ in range(rng.randint(1, 3)):
+                ops.append(["inspect", g])
         elif seg == "mutate":
             what = rng.choice(["reregister", "clear", "thresholds", "thresholds"])
             if what == "thresholds":
@@ -344,6 +373,72 @@ def zone(profile, pep):
     return z
 
 
+class Fingerprint:
+    """What the harness itself computes from the observations it fed (the last window_size of them) - never the
+    display's own peptide, so that a display that reports stale or wrong statistics cannot hide behind its output."""
+    __slots__ = ("output_length_mean", "response_time_mean", "confidence_mean", "error_rate", "canary_accuracy",
+                 "vocab", "structs")
+
+
+def my_structure(out):
+    t = out.strip()
+    if t[:1] in ("{", "["):
+        try:
+            json.loads(t)
+            return "json"
+        except ValueError:
+            pass
+    j = 0
+    while j < len(t) and t[j].isdigit():
+        j += 1
+    if j and t[j:j + 1] == "." and t[j + 1:j + 2].isspace():
+        return "numbered_list"
+    if t[:1] in ("-", "*") and t[1:2].isspace():
+        return "bullet_list"
+    if t[:1] == "#":
+        return "markdown"
+    return "plain"
+
+
+def fingerprint(window, canaries, min_obs):
+    if len(window) < min_obs:
+        return None
+    fp = Fingerprint()
+    fp.output_length_mean = statistics.mean(len(o["out"]) if o["out"] else 0 for o in window)
+    fp.response_time_mean = statistics.mean(o["t"] for o in window)
+    fp.confidence_mean = statistics.mean(o["c"] for o in window)
+    fp.error_rate = sum(1 for o in window if o["err"]) / len(window)
+    fp.canary_accuracy = (sum(canaries) / len(canaries)) if canaries else None
+    fp.vocab = frozenset(w for o in window if o["out"] for w in re.findall(r"\w+", o["out"].lower()))
+    fp.structs = frozenset(my_structure(o["out"]) for o in window if o["out"])
+    return fp
+
+
+def zone_sys(profile, fp, trained):
+    """Like zone(), for the harness's own fingerprint; vocabulary / structure are compared as sets with the sets of the
+    window the baseline was trained on (the profile only holds their hashes)."""
+    z = "inside"
+    for (lo, hi), v in ((profile.output_length_bounds, fp.output_length_mean),
+                        (profile.response_time_bounds, fp.response_time_mean),
+                        (profile.confidence_bounds, fp.confidence_mean)):
+        if _near(v, lo) or _near(v, hi):
+            z = "edge"
+        elif v < lo or v > hi:
+            return "outside"
+    if _near(fp.error_rate, profile.error_rate_max):
+        z = "edge"
+    elif fp.error_rate > profile.error_rate_max:
+        return "outside"
+    if fp.vocab != trained[0] or fp.structs != trained[1]:
+        return "outside"
+    if fp.canary_accuracy is not None:
+        if _near(fp.canary_accuracy, profile.canary_accuracy_min):
+            z = "edge"
+        elif fp.canary_accuracy < profile.canary_accuracy_min:
+            return "outside"
+    return z
+
+
 def canary_may_have_failed(profile, pep):
     return pep.canary_accuracy is not None and (pep.canary_accuracy < profile.canary_accuracy_min
                                                 or _near(pep.canary_accuracy, profile.canary_accuracy_min))
@@ -424,12 +519,16 @@ def run_system(plan, k):
     cfg = plan["config"]
     imm = ImmuneSystem(min_training_samples=cfg["min_train"], min_observations=cfg["min_obs"],
                        window_size=cfg["window"],
+                       thymus=Thymus(tolerance=cfg.get("tol", 2.0), variance_threshold=cfg.get("var_thr", 0.5)),
                        treg=RegulatoryTCell(stability_threshold=cfg["stab"]),
                        memory=ImmuneMemory(capacity=cfg["cap"]))
     for j, spec in enumerate(cfg["rules"]):
         imm.treg.rules.append(make_rule(j, spec, k))
     for a in AGENTS:
         imm.register_agent(a)
+    fed = {a: [] for a in AGENTS}        # the harness's own copy of each agent's sliding window
+    canaries = {a: [] for a in AGENTS}
+    trained = {}               # agent -> (vocabulary set, structure set) of the window the baseline was trained on
     watch = {}                 # agent -> Watch (present once trained)
     trainings = {a: 0 for a in AGENTS}
     just_trained = None        # agent whose POSITIVE training was the previous call
@@ -462,7 +561,13 @@ def run_system(plan, k):
     def record_obs(a, spec):
         out_idx, extra, t, c, e = spec
         out = None if out_idx < 0 else OUT[out_idx] + ((" ok" + " " * (extra - 3)) if extra >= 3 else " " * extra)
-        return call(imm.record_observation, a, out, t, c, ERRS[e])
+        return feed(a, out, t, c, ERRS[e])
+
+    def feed(a, out, t, c, err):
+        r = call(imm.record_observation, a, out, t, c, err)
+        fed[a].append({"out": out, "t": t, "c": c, "err": err})
+        del fed[a][:max(0, len(fed[a]) - cfg["window"])]
+        return r
 
     for op in plan["ops"]:
         name = op[0]
@@ -509,7 +614,7 @@ def run_system(plan, k):
             k.ev("obs", [a, op[2:], out.brief()])
         elif name == "edge":
             prof = imm.profiles.get(a)
-            obs = list(imm.displays[a].observations)
+            obs = list(fed[a])
             if prof is None or not obs:
                 continue
             field, side, e = op[2], op[3], op[4]
@@ -521,28 +626,31 @@ def run_system(plan, k):
             b = bounds[0 if side == "lo" else 1]
             rel = (-1e-3, -1e-7, 0.0, 1e-7, 1e-3)[e]
             target = b + rel * max(1.0, abs(b))
-            t, c, o = last.response_time, last.confidence, last.output
+            t, c, o = last["t"], last["c"], last["out"]
             if field == "time":
-                t = n * target - sum(x.response_time for x in rest)
+                t = n * target - sum(x["t"] for x in rest)
             elif field == "conf":
-                c = n * target - sum(x.confidence for x in rest)
+                c = n * target - sum(x["c"] for x in rest)
             else:
-                want = n * target - sum(len(x.output) if x.output else 0 for x in rest)
+                want = n * target - sum(len(x["out"]) if x["out"] else 0 for x in rest)
                 want = int(round(want)) + (-1, 0, 0, 0, 1)[e]
                 base = (o or "ok").rstrip()
                 if want < len(base):
                     continue
                 o = base + " " * (want - len(base))
-            out = call(imm.record_observation, a, o, t, c, last.error)
+            out = feed(a, o, t, c, last["err"])
             k.ev("edge", [a, field, side, e, out.brief()])
         elif name == "canary":
             out = call(imm.record_canary_result, a, op[2])
+            canaries[a].append(bool(op[2]))
             k.ev("canary", [a, op[2], out.brief()])
         elif name == "clear":
             imm.displays[a].clear()
+            fed[a], canaries[a] = [], []
             k.ev("clear", a)
         elif name == "reregister":
             out = call(imm.register_agent, a)      # fresh display and tolerance record; watcher and profile stay
+            fed[a], canaries[a] = [], []
             k.ev("reregister", [a, out.brief()])
         elif name == "tc_thresholds":
             tc = imm.tcells.get(a)
@@ -554,6 +662,8 @@ def run_system(plan, k):
             out = call(imm.train_agent, a)
             k.ev("train", [a, out.brief()])
             if out.ok and out.value == SelectionResult.POSITIVE:
+                fp = fingerprint(fed[a], canaries[a], cfg["min_obs"])
+                trained[a] = (fp.vocab, fp.structs) if fp is not None else (frozenset(), frozenset())
                 watch[a] = Watch()
                 trainings[a] += 1
                 just_trained = a
@@ -608,13 +718,19 @@ def run_system(plan, k):
                 continue
             w = watch[a]
             prof = imm.profiles[a]
-            pep = imm.displays[a].generate_peptide()
-            z = zone(prof, pep) if pep is not None else "no_fingerprint"
+            pep = imm.displays[a].generate_peptide()      # used only for the hashes memory is keyed on
+            fp = fingerprint(fed[a], canaries[a], cfg["min_obs"])
+            z = zone_sys(prof, fp, trained[a]) if fp is not None else "no_fingerprint"
+            if (fp is None) != (pep is None) or (fp is not None and (
+                    fp.output_length_mean != pep.output_length_mean or fp.response_time_mean != pep.response_time_mean
+                    or fp.confidence_mean != pep.confidence_mean or fp.error_rate != pep.error_rate
+                    or fp.canary_accuracy != pep.canary_accuracy)):
+                k.probe("display_disagrees_with_fed_window")      # diagnostic only; must be 0 on a correct display
             remembered = pep is not None and any(
                 s.agent_id == a and s.vocabulary_hash == pep.vocabulary_hash and s.structure_hash == pep.structure_hash
                 for s in list(imm.memory.signatures))
             streak = w.streak + (1 if z in ("outside", "edge") else 0)
-            second = {"canary": pep is not None and canary_may_have_failed(prof, pep),
+            second = {"canary": fp is not None and canary_may_have_failed(prof, fp),
                       "streak": streak >= tc.repeated_anomaly_threshold,
                       "flag": w.flag, "remembered": remembered}
             anergic = w.false_alarms >= tc.anergy_threshold
